@@ -49,7 +49,13 @@ def cases(tier, rng, dist):
             # the statistics of the data as given happen to be whole numbers (returned as Python ints), those of the
             # re-allocations are halves: the matrix of statistics must not take its type from the observed row
             t = [t[0]] + [[v + Fraction(rng.choice([0, 1, 1]), 2) for v in r] for r in t[1:]]
-        yield {"f": "sim", "intobs": intobs, "table": [[str(v) for v in r] for r in t], "comb": rng.choice(COMBS[:5] + ["logit", "logit"]),
+        mta = None
+        if rng.random() < 0.3:
+            # the test array built by the library's own make_test_array(func, indices), with an index list in any order and with
+            # REPEATED indices (two tests of the same response column): position j of the call is func(data, indices[j])
+            mta = [rng.randrange(n) for _ in range(n)]
+            t = [[row[mta[j]] for j in range(n)] for row in t]
+        yield {"f": "sim", "mta": mta, "intobs": intobs, "table": [[str(v) for v in r] for r in t], "comb": rng.choice(COMBS[:5] + ["logit", "logit"]),
                "pynum": rng.random() < 0.5, "in_place": rng.random() < 0.5,
                # how the user's randomizer delivers the new assignment: a fresh array bound to data.group (as randomize_group
                # does) or the existing array overwritten in place (as randomize_in_strata does)
@@ -102,6 +108,14 @@ def run_sim(c):
     R = NPC.Experiment.Randomizer(randomize=rand)
     data = NPC.Experiment(group=[0, 0, 0], response=[[1], [2], [3]], randomizer=R)
     tests = [mk(j) for j in range(len(t[0]))]
+    if c.get("mta"):
+        idx = list(c["mta"])
+        def f(data, i):
+            k = int(data.group[0]); v = float(t[k][idx.index(i)])          # (columns with the same index hold the same values)
+            if c.get("intobs") and v.is_integer():
+                return int(v)
+            return v if c["pynum"] else np.float64(v)
+        tests = NPC.Experiment.make_test_array(f, idx)
     aborted = None
     if c.get("abort_first") is not None:
         # FAILURE PATH: on the SAME Experiment, a call with in_place=False is first aborted inside its repetition loop (the first
